@@ -125,6 +125,30 @@ def install(ctx, repo, probes):
                         ctx.cls("fuzz/%s/rejected" % name)
                 else:
                     ctx.cls("fuzz/%s/accepted" % name)
+                    if name == "DurationParser":
+                        # a returned Duration is usable: every field is a
+                        # number and its length can be taken
+                        try:
+                            ok = all(getattr(res, "_" + f) is not None
+                                     for f in ("years", "months", "days",
+                                               "hours", "minutes",
+                                               "seconds")) \
+                                or res._weeks is not None
+                            res.get_seconds()
+                            hash(res)
+                        except Exception:
+                            ok = False
+                        if not ok:
+                            ctx.violation("fuzz.invalid-object", "%r parsed "
+                                          "to an unusable Duration %r" % (
+                                              args[1], {
+                                                  f: getattr(res, "_" + f)
+                                                  for f in ("years", "months",
+                                                            "weeks", "days",
+                                                            "hours",
+                                                            "minutes",
+                                                            "seconds")}),
+                                          text=args[1])
                     if name == "TimePointParser" and not res._truncated \
                             and not kwargs.get("is_duration") and \
                             not R.tp_valid(R.canon(repo.CALENDAR.mode), res):
@@ -142,6 +166,7 @@ def install(ctx, repo, probes):
                 make_parse("DurationParser"))
     probes.wrap(repo.parsers.TimeRecurrenceParser, "parse",
                 make_parse("TimeRecurrenceParser"))
+    ctx.target("operator/legal", "operator/refused")
     ctx.target("strptime/legal", "strptime/refused",
                "strptime/legal/dump_format", "strptime/refused/dump_format")
     for name in ("TimePointParser", "DurationParser",
@@ -311,6 +336,26 @@ def edge_cases(mode, years):
                            "legal": legal,
                            "fields": {"year": y, "week_of_year": w,
                                       "day_of_week": dow}}
+
+
+def operator_cases():
+    """the notations DateTimeOperator.date_parse hands to the C library
+    (ctime, Unix date, custom --parse-format): impossible fields are still
+    refused"""
+    for text, fmt, legal in (
+            ("Sat Jan  1 12:34:56 2000", None, True),
+            ("Sat Jan  1 12:34:60 2000", None, False),
+            ("Sat Jan  1 12:34:61 2000", None, False),
+            ("Sat Jan  1 12:60:00 2000", None, False),
+            ("Sat Jan  1 25:00:00 2000", None, False),
+            ("Tue Feb 30 12:00:00 2000", None, False),
+            ("Sat 01 Jan 12:34:60 UTC 2000", None, False),
+            ("01 Jan 2000 12:34:56", "%d %b %Y %H:%M:%S", True),
+            ("01 Jan 2000 12:34:60", "%d %b %Y %H:%M:%S", False),
+            ("31 Feb 2000 12:34:00", "%d %b %Y %H:%M:%S", False),
+            ("29 Feb 2001 12:34:00", "%d %b %Y %H:%M:%S", False)):
+        yield {"op": "operator", "mode": "gregorian", "text": text,
+               "fmt": fmt, "legal": legal}
 
 
 def strptime_cases(mode, years):
@@ -486,10 +531,12 @@ DUR_SEEDS = [
     "PT1,5H", "PT0.5S", "-P1D", "-PT1H30M", "P0Y", "P52W", "P1DT12H",
     "P0001-02-03T04:05:06", "P00010203T040506", "P0001-002T00", "PT36H",
     "P1Y6M", "PT1H1,5M", "P3M2DT5,5S", "-P1Y2M3DT4H5M6,7S", "P10000D",
-    "P2000-01-01T00:00:00",
+    "P2000-01-01T00:00:00", "P0000-00-00T00:30,5", "P00000000T0030.5",
+    "P0000-000T01:00,25", "P0001-01-01T10,5", "P0000-00-01T00:00:00,5",
 ]
 REC_SEEDS = [
     "R7/8504/PT1,e885H",    # regression: used to raise OverflowError
+    "R2/2000-01-01T00Z/P0000-00-00T00:30,5",
     "R/2000-01-01T00Z/P1D", "R5/2000-01-01T00Z/P1D", "R/P1D/2000-01-01T00Z",
     "R3/P1M/2000-03-31T00Z", "R5/2000/2001", "R/2000-01-01T00Z/2000-01-02T00Z",
     "R1/2000-01-01T00Z/P1Y", "R2/P1W/20000101T00Z", "R/20000101T00Z/PT6H",
@@ -627,6 +674,32 @@ def run_case(ctx, repo, case):
             except Exception:
                 pass
             ctx.nontrivial((mode, "text", case["text"]))
+        elif op == "operator":
+            ctx.ev("operator.grid")
+            oper = repo.datetimeoper.DateTimeOperator(
+                parse_format=case["fmt"])
+            try:
+                oper.date_parse(case["text"])
+                ok = True
+            except ValueError:
+                ok = False
+            except Exception as exc:
+                ctx.violation("fuzz.exception-type", "date_parse(%r) raised "
+                              "%s: %s" % (case["text"], type(exc).__name__,
+                                          exc), text=case["text"])
+                return
+            if ok and not case["legal"]:
+                ctx.violation("admitted-impossible", "DateTimeOperator("
+                              "parse_format=%r).date_parse(%r) admitted an "
+                              "impossible date-time" % (case["fmt"],
+                                                        case["text"]),
+                              text=case["text"])
+            elif not ok and case["legal"]:
+                ctx.violation("refused-valid", "date_parse(%r) refused a "
+                              "valid date-time" % (case["text"],),
+                              text=case["text"])
+            else:
+                ctx.cls("operator/%s" % ("legal" if ok else "refused"))
         elif op == "strptime":
             # strptime is an entry point too (with and without its
             # dump_format keyword)
@@ -821,6 +894,10 @@ def workload(ctx, repo):
             ctx.case = case
             if i % 4001 == 0:
                 ctx.sample(case)
+            run_case(ctx, repo, case)
+    if ctx.worker == 0:
+        for case in operator_cases():
+            ctx.case = case
             run_case(ctx, repo, case)
     for mode in R.MODES:
         for case in strptime_cases(mode, (2000, 2001, 1900, 2004, 0, 9999)):
